@@ -105,7 +105,7 @@ def partition_dtype(repo, res):
             return _I.construct("Symbol", [f"acc_{mt.f['name']}", terminal_types[mt.f["name"]]], {})
 
         def defs_get(mt, tabledata, rule, acc, _I=I):
-            return Node("Section", name=f"def_{mt.f['name']}", statements=[], declarations=[], input=[], output=[])
+            return _I.construct("Section", [f"def_{mt.f['name']}", [], [], [], []], {})  # (built by its own constructor: its own __eq__ compares definitions)
 
         # the real L.ufl_to_lnodes is interpreted: its dispatch table is keyed by UFL classes, which the sample nodes carry by name
         # (keys: every ufl class the module mentions stands for itself; the table is evaluated as module initialisation leaves it)
